@@ -6,6 +6,7 @@ package mon
 import (
 	"fmt"
 	"net/http"
+	"net/url"
 	"strings"
 	"time"
 
@@ -279,6 +280,20 @@ func C02Request(w *sim.World, in *Info) (vs []V, nValidation int) {
 	}
 	cli := http.Header(ex.Spec.Header)
 	for _, c := range ex.Calls() {
+		// every upstream call of the exchange is for the client's URI, with the
+		// client's header fields as they were when RoundTrip was called
+		if cu, err := url.Parse(c.URL); err == nil {
+			if oracle.CompareURI(cu, ReqURL(ex.Spec)) == oracle.Distinct {
+				bg := "foreground"
+				if c.Background {
+					bg = "background"
+				}
+				vs = append(vs, V{"C02", "upstream-request", "url-differs," + bg, fmt.Sprintf("upstream call %s went to %q, the client asked for %q; %s", c.Serial, c.URL, ReqURL(ex.Spec), ex.Summary())})
+			}
+		}
+		if c.Header.Get("X-Reused") != "" {
+			vs = append(vs, V{"C02", "upstream-request", "sees-caller-reuse", fmt.Sprintf("upstream call %s carries header fields the caller set on its request object after RoundTrip had returned; %s", c.Serial, ex.Summary())})
+		}
 		addedINM := c.Header.Get("If-None-Match") != "" && cli.Get("If-None-Match") == ""
 		addedIMS := c.Header.Get("If-Modified-Since") != "" && cli.Get("If-Modified-Since") == ""
 		if !addedINM && !addedIMS {
